@@ -323,13 +323,14 @@ func runC05(env *core.Env) {
 	bigLog.Create(SynItem{ID: core.IDFor(9703), Title: "small tail"})
 	big := rich.Store.WithLog(append(append([]byte{}, rich.Store.Log()...), bigLog.Bytes()...))
 	faultCov := unchangedWhateverPhase(env, "C05", []core.Store{rich.Store, tornVariants(rich.Store)[0], roots[nRoots-1], big, tornVariants(big)[0]}, crashCmd{"compact", core.R("", "--json", "compact")})
+	limitCov := c05NearLineLimit(env)
 	_ = os.Stderr
 	if len(samples.list) == 0 {
 		samples.add("(no state at the depth bound)")
 	}
 	env.Finish("model_checking", map[string]interface{}{
-		"io_error_phase": faultCov,
-		"states":         b.States, "transitions": b.Transitions, "traces_validated_against_impl": validated, "samples": samples.list,
+		"io_error_phase": faultCov, "near_line_limit": limitCov,
+		"states": b.States, "transitions": b.Transitions, "traces_validated_against_impl": validated, "samples": samples.list,
 		"exhaustive": b.CapHit == "" || b.CapHit == "max_depth", "cap_hit": b.CapHit, "history_depth_completed": b.DepthDone, "roots": len(roots),
 		"states_checked": statesChecked, "commuting_diagram_checks": commuteChecks, "states_by_depth": classes.snapshot(),
 		"unconfirmed_candidates": unconfirmed.Load(),
@@ -444,4 +445,87 @@ func c05MergedRoots() []core.Store {
 		out = append(out, mk(l))
 	}
 	return out
+}
+
+// c05NearLineLimit: compact re-emits an item's current body inside its creation event, whose envelope is longer than
+// that of the body event the text arrived in. Bodies within a few hundred bytes of the 10 MiB line limit: either compact
+// succeeds and everything reads exactly as before, or it refuses and the store is untouched - never a store that
+// can no longer be read.
+func c05NearLineLimit(env *core.Env) map[string]interface{} {
+	slack := []int{40, 90, 130, 150, 170, 200, 250, 300, 400, 600}
+	var readable, compacted, refused int64
+	env.Parallel(len(slack), func(w *core.Worker, i int) {
+		kind, detail := c05NearLimitCase(w.Run, func() core.Obs { return core.ObserveW(w, w.Proj) }, w.Proj, slack[i])
+		switch kind {
+		case "not-readable-before":
+		case "compacted":
+			atomic.AddInt64(&readable, 1)
+			atomic.AddInt64(&compacted, 1)
+		case "refused":
+			atomic.AddInt64(&readable, 1)
+			atomic.AddInt64(&refused, 1)
+		default:
+			atomic.AddInt64(&readable, 1)
+			sig := "C05 kind=" + kind
+			if env.ViolationSeen(sig) {
+				return
+			}
+			spawn := core.Spawn{Bin: env.Prod}.Run
+			for k := 0; k < 3; k++ { // confirm with spawned production binaries
+				if k2, _ := c05NearLimitCase(spawn, func() core.Obs { return core.Observe(spawn, w.Proj) }, w.Proj, slack[i]); k2 != kind {
+					unconfirmed.Add(1)
+					return
+				}
+			}
+			env.Violation(sig, detail, map[string]interface{}{"kind": "near-line-limit", "slack": slack[i]})
+		}
+	})
+	return map[string]interface{}{"bodies": len(slack), "readable_before": readable, "compacted": compacted, "refused_unchanged": refused,
+		"rule": "a task created without body + one body event of 10 MiB - {40..600} bytes; compact either succeeds with byte-identical observations or refuses leaving the log untouched; the store stays readable"}
+}
+
+// c05NearLimitCase builds the store for one slack value in proj, runs compact and classifies the outcome.
+func c05NearLimitCase(run func(core.Req) core.Res, observe func() core.Obs, proj string, slack int) (string, string) {
+	const limit = 10 * 1024 * 1024
+	l := newSynLog()
+	id := core.IDFor(9900)
+	l.Create(SynItem{ID: id, Title: "created without a body"})
+	ts := l.tick()
+	l.ev("body", ts, map[string]interface{}{"id": id, "body": strings.Repeat("b", limit-slack), "ts": ts})
+	st := core.Store{".ergo/plans.jsonl": l.Bytes(), ".ergo/lock": nil}
+	st.Materialize(proj)
+	before := observe()
+	if before.Fail != "" {
+		return "not-readable-before", "" // the body event itself does not fit a line: not a log ergo writes
+	}
+	res := run(core.R(proj, "--json", "compact"))
+	after := observe()
+	post, _ := core.Snapshot(proj)
+	desc := fmt.Sprintf("task created without body, then a body of 10 MiB - %d bytes", slack)
+	switch {
+	case after.Fail != "":
+		return "store-unreadable-after-compact-near-the-line-limit", fmt.Sprintf("%s: compact exits %d; afterwards reads fail: %s", desc, res.Exit, after.Fail)
+	case res.Exit == 0 && after.Raw() != before.Raw():
+		return "observable-change-near-the-line-limit", desc + ": compact changed what a reader sees: " + clipS(firstDiff(before.Raw(), after.Raw()), 300)
+	case res.Exit != 0 && string(post.Log()) != string(st.Log()):
+		return "refused-compact-changed-the-log", desc + ": compact exits non-zero but the log changed"
+	case res.Exit == 0:
+		return "compacted", ""
+	}
+	return "refused", ""
+}
+
+func init() {
+	replayers["near-line-limit"] = func(env *core.Env, raw json.RawMessage) bool {
+		var a struct {
+			Slack int `json:"slack"`
+		}
+		json.Unmarshal(raw, &a)
+		proj := filepath.Join(env.Scratch, "replay", "proj")
+		os.MkdirAll(proj, 0o755)
+		spawn := core.Spawn{Bin: env.Prod}.Run
+		kind, detail := c05NearLimitCase(spawn, func() core.Obs { return core.Observe(spawn, proj) }, proj, a.Slack)
+		fmt.Printf("  body of 10 MiB - %d bytes, then `ergo --json compact`: %s %s\n", a.Slack, kind, detail)
+		return kind != "compacted" && kind != "refused" && kind != "not-readable-before"
+	}
 }
